@@ -1,8 +1,8 @@
 CONSTANTS
-  N = 2
-  MaxCmd = 2
+  N = 3
+  MaxCmd = 1
   MaxVar = 1
-  NCtx = 0
+  NCtx = 2
   HookKinds = {"none"}
 SPECIFICATION Spec
 INVARIANTS CommandsAfterDependencies StopsAtFailure FinalOK RunOnlyWhileStageRunning UpBeforeUse DownAfterAll OneUpAtATime
